@@ -153,6 +153,33 @@ func c17families() []c17family {
 			g.NTs[1] = g.Mk(gram.OpAny, g.Mk(gram.OpSeqOf, g.Ref(0), g.Rune(l[2])), g.Rune(l[3]))
 			return c17gram(g, tick), string(l[0]) + rep(string(l[2])+string(l[1]), (n-1)/2)
 		}},
+		{"mutual pair, both members also directly left recursive X -> X p | A q ; A -> A r | X s | a", true, func(r *rand.Rand, n int, tick func(*parsley.Context)) (parsley.Parser, string) {
+			l := c17letters(r, 5) // p q r s a
+			g := gram.New(string(l), 2)
+			g.NTs[0] = g.Mk(gram.OpAny, g.Mk(gram.OpSeqOf, g.Ref(0), g.Rune(l[0])), g.Mk(gram.OpSeqOf, g.Ref(1), g.Rune(l[1])))
+			g.NTs[1] = g.Mk(gram.OpAny, g.Mk(gram.OpSeqOf, g.Ref(1), g.Rune(l[2])), g.Mk(gram.OpSeqOf, g.Ref(0), g.Rune(l[3])), g.Rune(l[4]))
+			// left-linear with a distinct last terminal per rule: a two-state walk, deterministic and unambiguous
+			b := []byte{l[4]}
+			inA := true
+			for len(b) < n-1 {
+				switch {
+				case inA && r.Intn(2) == 0:
+					b = append(b, l[2])
+				case inA:
+					b, inA = append(b, l[1]), false
+				case r.Intn(2) == 0:
+					b = append(b, l[0])
+				default:
+					b, inA = append(b, l[3]), true
+				}
+			}
+			if inA {
+				b = append(b, l[1])
+			} else {
+				b = append(b, l[0])
+			}
+			return c17gram(g, tick), string(b)
+		}},
 		{"mutual triple A -> B t | a ; B -> C u | d ; C -> A v | e", true, func(r *rand.Rand, n int, tick func(*parsley.Context)) (parsley.Parser, string) {
 			l := c17letters(r, 6)
 			g := gram.New(string(l), 3)
@@ -368,6 +395,9 @@ func c17exec(j run.Job, a *run.Acc) {
 			for _, n := range sizes {
 				if !f.judged && n > 64 {
 					continue // information only: cubic work with long result lists, not worth the minutes
+				}
+				if strings.HasPrefix(f.name, "mutual pair, both members") && n > 64 {
+					continue // cubic on the unchanged tree (ratio -> 8): beyond 2n = 128 the counts pass 10^7
 				}
 				if strings.HasPrefix(f.name, "optional unary minus") && n > 128 {
 					// pure nesting deeper than ~380 brackets exhausts the 1 GB goroutine stack on the unchanged tree
